@@ -12,7 +12,8 @@ EXPLANATION = (
     "R04.2 every round boundary is tested: single latch, the only other exit is the test-mode break. R04.3 the two clocks: "
     "initial_start is Some(Timestamp::start) exactly on the !skip_ext_time edge, read before the loop; on the Some arm "
     "elapsed is assigned duration_since(initial_start) of the maximum `end`; on the None arm elapsed is saturating_add'ed "
-    "with max(slowest_time.picos, 1000). R04.4 defaults: min_time() -> zero, max_time() -> FineDuration::MAX.")
+    "with max(slowest_time.picos, 1000). R04.4 defaults: min_time() -> zero, max_time() -> FineDuration::MAX."
+    " R04.5 the three time options are parsed into their own fields (expansion rules restricted to max_time/min_time/skip_ext_time).")
 NOT_DECIDED = ["agreement of the executed round count with a given clock history (needs a scripted clock - runtime family)"]
 
 # canonical atoms of the documented condition: continue  <=>  A and (B or C)
